@@ -387,6 +387,9 @@ class Unit:
         S = src(rel)
         a, sig_end, b = S.find_fn(path)
         text = S.text[a:b]
+        if path in self.external:
+            # body not verified in this run: keep the signature (and its contract, now an assumption reported as undecided)
+            text = S.text[a:sig_end] + "{ unimplemented!() }"
         spec, attrs, edits, rws = [], [], [], []
         cur = None
         for sline in subs:
